@@ -1733,7 +1733,7 @@ CLAUSES = [
                 'rebuild from atomman\'s own output of a second representation'),
     Clause('named', _ledgered(oracle_named), named_cases, quick=3000, thorough=90000,
            min_share={'nt': 0.27, 'how_method': 0.13, 'nonunit_axes': 0.15, 'how_reuse': 0.14, 'pre_looked': 0.03, 'near_iso': 0.099,
-                      'scale_small': 0.077, 'num_int': 0.02, 'num_npint': 0.017, 'axes_readonly': 0.036, 'whole': 0.08,
+                      'scale_small': 0.077, 'num_int': 0.02, 'num_npint': 0.017, 'axes_readonly': 0.015, 'whole': 0.08,
                       'ledger': 0.4, 'caller_redefined_out': 0.2, 'caller_overwrote': 0.17, 'axes_dt_int': 0.025, 'axes_dt_float': 0.03,
                       'almost': 0.03, 'num_narrow': 0.1, 'axes_almost_orth': 0.045, 'exact_relabelling': 0.065, 'axes_decades': 0.02},
            desc='crystal-system constructors in every documented keyword form against my placement table; invariance '
